@@ -238,6 +238,9 @@ func TestVerifC07Random(t *testing.T) {
 		for i := 0; i < nops; i++ {
 			size := c07Size(rng, uint64(earlyReserveLastUsed))
 			frame := uint64(rng.Int63n(1 << 40))
+			if rng.Intn(8) == 0 { // boundary frame numbers
+				frame = []uint64{0, 1, 1<<40 - 1, 1<<40 - 3, 1 << 39}[rng.Intn(5)]
+			}
 			k := budgets[rng.Intn(len(budgets))]
 			switch rng.Intn(4) {
 			case 0, 1:
